@@ -14,14 +14,19 @@
                saved result
      refs      << <<table tag, <<glyph numbers (NEW id + 1) the table of the saved result mentions>>>> >>
      rcmap     Unicode cmap of the saved result, << <<u, new id + 1>> >>
+     mcmap     Unicode cmap of the subsetted font in memory, before it is compiled, same form; fmt2 = it holds a
+               format-2 subtable all of whose codes are below 256
      shapes    HarfBuzz: << [t |-> text, a |-> original: << <<gid, xAdv, yAdv, xOff, yOff>> >>, b |-> result] >>
-     kept      << [g, adv |-> <<before, after>>, lsb |-> <<before, after>>,
+     kept      << [g, adv |-> <<before, after>>, lsb |-> <<before, after>>, cls |-> <<GDEF glyph class before, after>>,
                    loc |-> << <<outline id before, after, advance before, after>> per location >>] >>
      res       (generated fonts only) the full projection of the saved result
-     crash     (only if the subsetter raised) the exception text
+     crash     (only if the subsetter raised) the exception text; req and opts are recorded as usual
+   meta.fonts[i].fv = the font has FeatureVariations (their alternate lookups are outside the projection).
    The observed final state is mapped onto the variables of Subset.tla (instance S) and the clauses of the
-   specification are evaluated on it; MinClosure and, for generated fonts, OTLSem shaping of both fonts
-   are computed here from the projections.  Clauses "trace:*" mean a malformed recording (machinery).  *)
+   specification are evaluated on it; MinClosure and, for generated fonts, OTLSem shaping of both fonts (texts up
+   to length 2; the model checks length 3) are computed here from the projections.  Verdicts: <<"ok", n>> accepted,
+   n shaping observations compared; "domain:*" the request is outside the property's domain (counted as skipped);
+   "trace:*" a malformed recording (machinery); anything else names the violated clause.  *)
 EXTENDS OTLSem, TLC, Json, IOUtils, FiniteSets
 
 Input == JsonDeserialize(IOEnv.TRACE_FILE)
@@ -70,6 +75,10 @@ RequestedClause(t) ==
   ELSE IF S!RequestedPresentF(TF, t.req, Ret, LAMBDA g : t.imap[g] + 1, t.rcmap, {}) THEN None
   ELSE IF S!RequestedPresentF(TF, t.req, Ret, LAMBDA g : t.imap[g] + 1, t.rcmap, S!ZeroGlyph(t.order, t.opts))
        THEN <<"requested:character-lost-its-glyph-was-renumbered-to-glyph-0-(notdef-dropped)", t.order[1]>>
+  (* Root cause Format2OneByte (finding C07/cmap-format2-one-byte-codes): the subsetter's own (in-memory) cmap has the
+     character, the result holds a format-2 subtable whose codes are all one-byte, and the saved font has lost it *)
+  ELSE IF t.fmt2 /\ S!RequestedPresentF(TF, t.req, Ret, LAMBDA g : t.imap[g] + 1, t.mcmap, S!ZeroGlyph(t.order, t.opts))
+       THEN <<"requested:character-lost-on-save-(cmap-format-2-subtable-with-one-byte-codes-only)", 0>>
   ELSE <<"requested:character-missing-or-mapped-to-another-glyph", 0>>
 
 MonotoneClause(t) ==
@@ -111,11 +120,11 @@ SameGlyphs(t, o) == /\ Len(o.a) = Len(o.b)
 SamePositions(o) == \A k \in 1..Len(o.a) : \A j \in 2..5 : o.a[k][j] = o.b[k][j]
 Compared(t) == {k \in 1..Len(t.shapes) : InDomain(t, t.shapes[k])}
 ShapingClause(t, cmp) ==
-  LET k == FirstIdx({k \in cmp : ~SameGlyphs(t, t.shapes[k])}) IN
+  LET k == FirstIdx({i \in cmp : ~SameGlyphs(t, t.shapes[i])}) IN
   IF k # 0 THEN <<"shaping:glyphs-differ", k>>
-  ELSE LET j == FirstIdx({k \in cmp : ~SamePositions(t.shapes[k])}) IN
+  ELSE LET j == FirstIdx({i \in cmp : ~SamePositions(t.shapes[i])}) IN
        IF j # 0 THEN <<"shaping:advances-or-offsets-differ", j>>
-       ELSE IF "res" \in DOMAIN t /\ t.opts.closure /\ ~S!ShapingPreservedF(TF, t.opts, t.res, t.order, 3)
+       ELSE IF "res" \in DOMAIN t /\ t.opts.closure /\ ~S!ShapingPreservedF(TF, t.opts, t.res, t.order, 2)
             THEN <<"shaping:specification-shaping-of-projections-differs", 0>>
        ELSE None
 
